@@ -147,68 +147,93 @@ Definition without_any (v : value) : option value :=
   | other => Some other
   end.
 
-Definition props := list (str * value).           (* FxHashMap<String, Entry::Yaml>, in insertion order *)
-Definition p_has (k : str) (ps : props) : bool := existsb (fun e => str_eqb k (fst e)) ps.
-(* entry(key).or_insert(..): the first value for a key is kept *)
-Definition p_set (k : str) (v : value) (ps : props) : props :=
-  if p_has k ps then ps else ps ++ [(k, v)].
+(* ---------------- mod.rs / store.rs: entries and the property store ---------------- *)
+Inductive entry := ENone | EYaml (v : value) | ESome (ty n : N).   (* ty: 0 u64, 1 i64, 2 String, 3 bool *)
+Definition store := list (str * entry).            (* Props: FxHashMap<String, Entry>, in insertion order *)
+
+Fixpoint s_get (k : str) (st : store) : option entry :=
+  match st with
+  | [] => None
+  | (k', e) :: r => if str_eqb k k' then Some e else s_get k r
+  end.
+Fixpoint s_put (k : str) (e : entry) (st : store) : store :=
+  match st with
+  | [] => [(k, e)]
+  | (k', e') :: r => if str_eqb k k' then (k', e) :: r else (k', e') :: s_put k e r
+  end.
+(* Props::set: entry(key).or_insert(Entry::Yaml(val)) - an existing slot, whatever its state
+   (configured, typed, or the empty slot left by a lookup), is kept *)
+Definition s_set (k : str) (v : value) (st : store) : store :=
+  match s_get k st with
+  | Some _ => st
+  | None => st ++ [(k, EYaml v)]
+  end.
+(* get_raw: entry(key).or_insert(Entry::None) *)
+Definition get_raw (k : str) (st : store) : entry := match s_get k st with Some e => e | None => ENone end.
 
 (* ---------------- yaml.rs: Props::update_from ---------------- *)
-(* a loop `for (k, v) in map { if let Some((name, value)) = g(k, v) { self.set(name, value) } }` *)
-Definition pfold (g : str * value -> option (str * value)) (m : mapping) (ps : props) : props :=
-  fold_left (fun ps e => match g e with Some kv => p_set (fst kv) (snd kv) ps | None => ps end) m ps.
+(* written over an arbitrary store type T with its `set`, instantiated with [store]/[s_set] below
+   (the proofs also instantiate it with plain name/value lists) *)
+Section UpdateFrom.
+  Variable T : Type.
+  Variable set : str -> value -> T -> T.
 
-(* path.is_empty() branch *)
-Definition take_all (ps : props) (m : mapping) : props :=
-  pfold (fun e => if contains_any (fst e) then None
-                  else match without_any (snd e) with
-                       | Some v => Some (fst e, v)
-                       | None => None
-                       end) m ps.
+  (* a loop `for (k, v) in map { if let Some((name, value)) = g(k, v) { self.set(name, value) } }` *)
+  Definition pfold (g : str * value -> option (str * value)) (m : mapping) (ps : T) : T :=
+    fold_left (fun ps e => match g e with Some kv => set (fst kv) (snd kv) ps | None => ps end) m ps.
 
-(* `for i in 0..path.len()`: key grows by one segment per round, an exact hit
-   recurses with the remaining path; returns the full joined path as well *)
-Fixpoint prefix_loop (upd : props -> value -> list str -> props) (m : mapping)
-         (ps : props) (key : str) (first : bool) (path : list str) : props * str :=
-  match path with
-  | [] => (ps, key)
-  | s :: rest =>
-      let key' := (if first then key else key ++ [DOT]) ++ s in
-      let ps' := match m_get key' m with
-                 | Some e => upd ps e rest
-                 | None => ps
-                 end in
-      prefix_loop upd m ps' key' false rest
-  end.
+  (* path.is_empty() branch *)
+  Definition take_all (ps : T) (m : mapping) : T :=
+    pfold (fun e => if contains_any (fst e) then None
+                    else match without_any (snd e) with
+                         | Some v => Some (fst e, v)
+                         | None => None
+                         end) m ps.
 
-(* "extract direct prefixes, a prefix must end at a segment boundary" *)
-Definition direct (key : str) (ps : props) (m : mapping) : props :=
-  pfold (fun e => if prefixb (key ++ [DOT]) (fst e)
-                  then match without_any (snd e) with
-                       | Some v => Some (skipn (length key + 1) (fst e), v)
-                       | None => None
-                       end
-                  else None) m ps.
+  (* `for i in 0..path.len()`: key grows by one segment per round, an exact hit
+     recurses with the remaining path; returns the full joined path as well *)
+  Fixpoint prefix_loop (upd : T -> value -> list str -> T) (m : mapping)
+           (ps : T) (key : str) (first : bool) (path : list str) : T * str :=
+    match path with
+    | [] => (ps, key)
+    | s :: rest =>
+        let key' := (if first then key else key ++ [DOT]) ++ s in
+        let ps' := match m_get key' m with
+                   | Some e => upd ps e rest
+                   | None => ps
+                   end in
+        prefix_loop upd m ps' key' false rest
+    end.
 
-Fixpoint update_from (fuel : nat) (ps : props) (base : value) (path : list str) : props :=
-  match path with
-  | [] => match base with Mapping m => take_all ps m | Scalar _ => ps end
-  | _ :: rest =>
-    match fuel with
-    | O => ps
-    | S f =>
-      match base with
-      | Scalar _ => ps
-      | Mapping m =>
-          let ps1 := match m_get ANY m with
-                     | Some v => update_from f ps v rest
-                     | None => ps
-                     end in
-          let '(ps2, key) := prefix_loop (update_from f) m ps1 [] true path in
-          direct key ps2 m
+  (* "extract direct prefixes, a prefix must end at a segment boundary" *)
+  Definition direct (key : str) (ps : T) (m : mapping) : T :=
+    pfold (fun e => if prefixb (key ++ [DOT]) (fst e)
+                    then match without_any (snd e) with
+                         | Some v => Some (skipn (length key + 1) (fst e), v)
+                         | None => None
+                         end
+                    else None) m ps.
+
+  Fixpoint update_from (fuel : nat) (ps : T) (base : value) (path : list str) : T :=
+    match path with
+    | [] => match base with Mapping m => take_all ps m | Scalar _ => ps end
+    | _ :: rest =>
+      match fuel with
+      | O => ps
+      | S f =>
+        match base with
+        | Scalar _ => ps
+        | Mapping m =>
+            let ps1 := match m_get ANY m with
+                       | Some v => update_from f ps v rest
+                       | None => ps
+                       end in
+            let '(ps2, key) := prefix_loop (update_from f) m ps1 [] true path in
+            direct key ps2 m
+        end
       end
-    end
-  end.
+    end.
+End UpdateFrom.
 
 (* ---------------- Cfg ---------------- *)
 Definition cfg := value.
@@ -216,11 +241,12 @@ Definition cfg_fuel (entries : list (str * N)) : nat := S (length (concat (map f
 (* serde_yml::from_str of the flat text + Cfg::new *)
 Definition cfg_new (entries : list (str * N)) : cfg :=
   compartmentalize (cfg_fuel entries) (Mapping (map (fun e => (fst e, Scalar (snd e))) entries)).
-Definition capture_for (c : cfg) (path : list str) (ps : props) : props := update_from (length path) ps c path.
-Definition capture_for_into (c : cfg) (path : list str) : props := capture_for c path [].
+Definition capture_for (c : cfg) (path : list str) (st : store) : store :=
+  update_from store s_set (length path) st c path.
+Definition capture_for_into (c : cfg) (path : list str) : store := capture_for c path [].
 
 (* ---------------- runtime/mod.rs ---------------- *)
-Record sim := { cfgs : list cfg; modules : list (list str * props) }.
+Record sim := { cfgs : list cfg; modules : list (list str * store) }.
 Definition sim_new : sim := {| cfgs := []; modules := [] |}.
 (* include_cfg: existing modules capture first, then the cfg is stored *)
 Definition include_cfg (s : sim) (c : cfg) : sim :=
@@ -241,23 +267,8 @@ Fixpoint build (s : sim) (c : cfg) (inc_at : nat) (included : bool) (paths : lis
               end
   end.
 
-(* ---------------- mod.rs: entry states and typed access ---------------- *)
-Inductive entry := ENone | EYaml (v : value) | ESome (ty n : N).   (* ty: 0 u64, 1 i64, 2 String, 3 bool *)
-Definition store := list (str * entry).
+(* ---------------- mod.rs: typed access ---------------- *)
 Inductive terr := TInvalidInput | TOther.
-
-Fixpoint s_get (k : str) (st : store) : option entry :=
-  match st with
-  | [] => None
-  | (k', e) :: r => if str_eqb k k' then Some e else s_get k r
-  end.
-Fixpoint s_put (k : str) (e : entry) (st : store) : store :=
-  match st with
-  | [] => [(k, e)]
-  | (k', e') :: r => if str_eqb k k' then (k', e) :: r else (k', e') :: s_put k e r
-  end.
-(* get_raw: entry(key).or_insert(Entry::None) *)
-Definition get_raw (k : str) (st : store) : entry := match s_get k st with Some e => e | None => ENone end.
 
 (* T::from_value: unsigned YAML numbers deserialise as u64 / i64 only *)
 Definition from_value (ty : N) (v : value) : option N :=
@@ -330,7 +341,6 @@ Fixpoint upd_nth {A} (i : nat) (f : A -> A) (l : list A) : list A :=
 
 Definition top_mod (o : top) : N := match o with TRead m _ _ | TWrite m _ _ _ | TRaw m _ => m end.
 Definition top_name (o : top) : str := match o with TRead _ n _ | TWrite _ n _ _ | TRaw _ n => n end.
-Definition top_ty (o : top) : N := match o with TRead _ _ t | TWrite _ _ t _ => t mod 4 | TRaw _ _ => 0 end.
 Definition top_norm (o : top) : top :=
   match o with
   | TRead m n t => TRead m n (t mod 4)
@@ -338,16 +348,22 @@ Definition top_norm (o : top) : top :=
   | TRaw m n => o
   end.
 
-Fixpoint run_tops (stores : list store) (ops : list top) : list N :=
-  match ops with
-  | [] => []
-  | o :: r =>
-      let i := N.to_nat (top_mod o mod N.of_nat (length stores)) in
-      let '(st', out) := top_step (nth i stores []) (top_name o) (top_norm o) in
-      out ++ run_tops (upd_nth i (fun _ => st') stores) r
-  end.
+(* what happens to the modules once they all exist: typed accesses through handles, and further
+   configurations (one entry each) included while the nodes already carry typed properties *)
+Inductive late := LTyped (t : top) | LInclude (k : str) (v : N).
 
-Definition store_of (ps : props) : store := map (fun e => (fst e, EYaml (snd e))) ps.
+Fixpoint run_late (mods : list (list str * store)) (ops : list late) : list (list str * store) * list N :=
+  match ops with
+  | [] => (mods, [])
+  | LTyped o :: r =>
+      let i := N.to_nat (top_mod o mod N.of_nat (length mods)) in
+      let '(st', out) := top_step (snd (nth i mods ([], []))) (top_name o) (top_norm o) in
+      let '(mods', outs) := run_late (upd_nth i (fun mp => (fst mp, st')) mods) r in
+      (mods', out ++ outs)
+  | LInclude k v :: r =>
+      let c := cfg_new [(k, v)] in
+      run_late (map (fun mp => (fst mp, capture_for c (fst mp) (snd mp))) mods) r
+  end.
 
 (* ---------------- canonical output ---------------- *)
 Fixpoint str_ltb (a b : str) : bool :=             (* Rust String Ord: bytewise lexicographic *)
@@ -356,17 +372,17 @@ Fixpoint str_ltb (a b : str) : bool :=             (* Rust String Ord: bytewise 
   | [], _ :: _ => true
   | x :: a', y :: b' => (x <? y) || ((x =? y) && str_ltb a' b')
   end.
-Fixpoint ins_sorted (e : str * value) (l : props) : props :=
+Fixpoint ins_sorted (e : str * entry) (l : store) : store :=
   match l with
   | [] => [e]
   | x :: r => if str_ltb (fst e) (fst x) then e :: x :: r else x :: ins_sorted e r
   end.
-Definition sort_props (ps : props) : props := fold_right ins_sorted [] ps.
-Definition dump (ps : props) : list N :=
-  10 :: N.of_nat (length ps) :: flat_map (fun e => enc_str (fst e) ++ enc_value (snd e)) (sort_props ps).
+Definition sort_props (ps : store) : store := fold_right ins_sorted [] ps.
+Definition dump (tag : N) (ps : store) : list N :=
+  tag :: N.of_nat (length ps) :: flat_map (fun e => enc_str (fst e) ++ enc_entry (snd e)) (sort_props ps).
 
 (* ---------------- wire format ---------------- *)
-Inductive op := OEntry (k : str) (v : N) | OModule (p : str) | OTyped (t : top).
+Inductive op := OEntry (k : str) (v : N) | OModule (p : str) | OLate (l : late).
 
 Definition take1 (l : list N) : N * list N := match l with [] => (0, []) | x :: r => (x, r) end.
 
@@ -375,10 +391,11 @@ Definition dec_op (l : list N) : option (op * list N) :=
   | 1 :: r => let '(k, r1) := take_lp r in let '(v, r2) := take1 r1 in Some (OEntry k v, r2)
   | 2 :: r => let '(p, r1) := take_lp r in Some (OModule p, r1)
   | 3 :: r => let '(m, r0) := take1 r in let '(n, r1) := take_lp r0 in let '(t, r2) := take1 r1 in
-              Some (OTyped (TRead m n t), r2)
+              Some (OLate (LTyped (TRead m n t)), r2)
   | 4 :: r => let '(m, r0) := take1 r in let '(n, r1) := take_lp r0 in let '(t, r2) := take1 r1 in
-              let '(v, r3) := take1 r2 in Some (OTyped (TWrite m n t v), r3)
-  | 5 :: r => let '(m, r0) := take1 r in let '(n, r1) := take_lp r0 in Some (OTyped (TRaw m n), r1)
+              let '(v, r3) := take1 r2 in Some (OLate (LTyped (TWrite m n t v)), r3)
+  | 5 :: r => let '(m, r0) := take1 r in let '(n, r1) := take_lp r0 in Some (OLate (LTyped (TRaw m n)), r1)
+  | 6 :: r => let '(k, r1) := take_lp r in let '(v, r2) := take1 r1 in Some (OLate (LInclude k v), r2)
   | _ => None
   end.
 
@@ -408,23 +425,26 @@ Definition entries_of (ops : list op) : list (str * N) :=
   flat_map (fun o => match o with OEntry k v => [(k, v)] | _ => [] end) ops.
 Definition paths_of (ops : list op) : list str :=
   flat_map (fun o => match o with OModule p => [p] | _ => [] end) ops.
-Definition tops_of (ops : list op) : list top :=
-  flat_map (fun o => match o with OTyped t => [t] | _ => [] end) ops.
+Definition lates_of (ops : list op) : list late :=
+  flat_map (fun o => match o with OLate l => [l] | _ => [] end) ops.
+Definition late_text (l : late) : str := match l with LTyped t => top_name t | LInclude k _ => k end.
 
 Definition valid_script (ops : list op) : bool :=
   forallb (fun e => valid_text (fst e)) (entries_of ops) &&
   forallb (fun p => valid_text p && negb (existsb is_nil (split_dot p))) (paths_of ops) &&
   nodupb (paths_of ops) &&
-  forallb (fun t => valid_text (top_name t)) (tops_of ops).
+  forallb (fun l => valid_text (late_text l)) (lates_of ops).
 
 (* the YAML parser rejects a mapping with a repeated key *)
 Definition yaml_ok (entries : list (str * N)) : bool := nodupb (map fst entries).
 
-Definition level_out (captured : list props) (tops : list top) : list N :=
-  flat_map dump captured ++
-  match captured with
+(* first dump, late operations, final dump *)
+Definition level_out (mods : list (list str * store)) (lates : list late) : list N :=
+  flat_map (fun mp => dump 10 (snd mp)) mods ++
+  match mods with
   | [] => []
-  | _ => run_tops (map store_of captured) tops
+  | _ => let '(mods', outs) := run_late mods lates in
+         outs ++ flat_map (fun mp => dump 12 (snd mp)) mods'
   end.
 
 Definition run (input : list N) : list N :=
@@ -436,13 +456,13 @@ Definition run (input : list N) : list N :=
       else
         let entries := entries_of ops in
         let paths := map split_dot (paths_of ops) in
-        let tops := tops_of ops in
+        let lates := lates_of ops in
         if yaml_ok entries then
           let c := cfg_new entries in
           let s := build sim_new c (N.to_nat (N.min inc_at (N.of_nat (length paths)))) false paths in
-          [100; 0] ++ level_out (map (capture_for_into c) paths) tops ++
-          [200] ++ level_out (map snd (modules s)) tops
+          [100; 0] ++ level_out (map (fun p => (p, capture_for_into c p)) paths) lates ++
+          [200] ++ level_out (modules s) lates
         else
-          let none := map (fun _ => @nil (str * value)) paths in
-          [100; 5] ++ level_out none tops ++ [200] ++ level_out none tops
+          let none := map (fun p => (p, @nil (str * entry))) paths in
+          [100; 5] ++ level_out none lates ++ [200] ++ level_out none lates
   end.
